@@ -220,7 +220,7 @@ func runC09(t testing.TB, c C09Case) (key, what string, st c09Stats) {
 				}
 				streaming = true
 			}
-			if res.Status == 301 && res.Header.Get("Location") != "" && hop < 3 {
+			if res.Status == 301 && res.Header.Get("Location") != "" && hop < 3 && !(c.Mode == "file" && !strings.HasPrefix(res.Header.Get("Location"), "/")) {
 				st.classes["followed-301"]++
 				loc := res.Header.Get("Location")
 				if u, err := url.Parse(loc); err == nil && u.Host != "" {
@@ -282,6 +282,24 @@ func runC09(t testing.TB, c C09Case) (key, what string, st c09Stats) {
 			case 404, 400, 405, 414, 431, 501, 505: // 404, or the HTTP layer's own refusals
 			default:
 				return "served-without-files-configured", fmt.Sprintf("%s: status %d although no files are served (want 404)", desc, res.Status), st
+			}
+		}
+		// (3) single-file mode: a request that reached the file handler (it was
+		// reported) is answered with that file, whatever its path looks like
+		if c.Mode == "file" && !streaming && !isShellish(rq.target()) && !isShellish(cur.target()) {
+			s.Barrier()
+			reported := false
+			for _, l := range s.Lines() {
+				if l.Seq > from && strings.Contains(l.CL.Line, "File requested") {
+					reported = true
+				}
+			}
+			if reported {
+				switch res.Status {
+				case 200, 206, 304, 412, 416:
+				default:
+					return "single-file-mode-not-served", fmt.Sprintf("%s: single-file mode answered %d (Location %q, body %q) instead of serving the file", desc, res.Status, res.Header.Get("Location"), clip(string(body), 100)), st
+				}
 			}
 		}
 		// (6) file requests are reported
